@@ -38,14 +38,16 @@ prop("C01", "exploration",
      "change 0..4 x max_outputs {1,2,500} x both strategies x both fee modes, dealt across shards) plus sampled wallets of 0-8 outputs "
      "(all five statuses, coinbase maturity, two accounts, heights 0-20, minconf {0,1,2,10}, change {0..5,17,255}, max_outputs "
      "{0,1,2,3,500}); workload B: owner::init_send_tx (normal, estimate_only, late_lock + finalize) and process_invoice_tx on a real "
-     "LMDB wallet/chain, context read back, raw LMDB dump compared after refusals. Oracle: independent spendability predicate, u128 "
+     "LMDB wallet/chain with two funded accounts (source account = active account or named through src_acct_name while the other is active; "
+     "for late-locked sends optionally another send reserving coins between initiation and finalization), context read back, raw LMDB dump compared "
+     "after refusals, a refused late-locked finalization of an honest reply must leave nothing newly reserved. Oracle: independent spendability predicate, u128 "
      "sums, grin_core tx_fee, logical step counter. distinct = (amount class, fee mode, strategy, change count, max_outputs, number "
      "eligible, ineligible present, outcome, inputs selected, change outputs); non-trivial = all (every case reaches the selection code)",
      [{"name": "c01", "cmd": "c01", "shards": {"quick": 12, "thorough": 16}, "crash_is_violation": True}],
      {"quick": 300000, "thorough": 3000000},
      ["wallet output sets whose total value does not fit in u64 are not generated (a wallet's outputs exist on one chain, so their sum is bounded by the supply)",
       "exhaustive=true refers to the bounded small scope of workload A only"],
-     required_hist=["A:built", "B:send-built", "B:invoice-paid", "B:late-lock-built"])
+     required_hist=["A:built", "B:send-built", "B:invoice-paid", "B:late-lock-built", "B:late-lock-with-coin-drift"])
 
 prop("C08", "exploration",
      "structural generator over every optional V4 slate field (7 states, num_parts {0,1,2,3,255}, boundary integers, fee shift, "
@@ -177,10 +179,10 @@ prop("C17", "exploration",
      required_hist=["refused-expired:Receive", "refused-expired:Finalize", "refused-expired:PayInvoice", "refused-expired:FinalizeInvoice", "accepted-in-time:Receive", "refresh-released-expired", "refresh-kept-unexpired", "refresh-kept-other-pending"])
 
 prop("C05", "exploration",
-     "pending transaction kinds (sent: locked / received by peer / finalized; received; received then finalized by peer; invoice payee: issued / processed; "
+     "two wallets x two accounts; pending transaction kinds (sent: locked / received by peer / finalized; received; received then finalized by peer; invoice payee: issued / processed; "
      "invoice payer locked; late-locked after finalize; self-send) x 0-3 other pending transactions created first x cancel by log id or slate id x 1-3 change "
-     "outputs, plus minimum_confirmations=0 spends of a still-unconfirmed output. The view P0 (per output: path, status, value, height, lock height; every "
-     "log entry; balance figures for minconf 0/1/3/10) is taken after a refresh right before the transaction is created; after the cancel the view must equal "
+     "outputs, plus minimum_confirmations=0 spends of a still-unconfirmed output; every third case also puts pending sends and receipts into the wallet's other account so that their per-account log ids cover the id of the transaction under test. The view P0 (per output: path, status, value, height, lock height; every "
+     "log entry of every account; balance figures of every account for minconf 0/1/3/10) is taken after a refresh right before the transaction is created; after the cancel the view must equal "
      "P0 except for the cancelled entry itself. Then cancels of already cancelled / unknown / coinbase / confirmed entries must be refused without change. "
      "distinct = (kind, other pending, addressing, change, minconf0); non-trivial = all",
      [{"name": "c05", "cmd": "c05", "shards": {"quick": 14, "thorough": 16}, "crash_is_violation": True}],
@@ -188,7 +190,7 @@ prop("C05", "exploration",
      ["no block is mined and no coin-selecting step runs between creation and cancel (their choices legitimately depend on the reservation)",
       "the output's link to a log entry (tx_log_entry) is not part of the compared state; status, value, heights and balances are",
       "a self-send is cancelled by log id (two entries share the slate id)"],
-     required_hist=["exact-rollback:SentFinalized", "exact-rollback:Received", "exact-rollback:InvoicePayerLocked", "exact-rollback:LateLockedFinalized", "exact-rollback:SelfSend", "refused:confirmed", "refused:coinbase", "refused:already-cancelled"])
+     required_hist=["exact-rollback:SentFinalized", "exact-rollback:Received", "exact-rollback:InvoicePayerLocked", "exact-rollback:LateLockedFinalized", "exact-rollback:SelfSend", "refused:confirmed", "refused:coinbase", "refused:already-cancelled", "cross-account:log-id-shared-with-a-pending-entry-of-the-other-account"])
 
 prop("C02", "exploration",
      "scenarios over send / late-locked send / self-send / invoice with random amount, 1-3 change outputs, ttl, amount-includes-fee, optional payment proof, on "
